@@ -229,7 +229,8 @@ func polyCoords(r *rand.Rand, o *DocOpts) *V {
 	return a
 }
 
-var foreignKeys = []string{"id", "bbox", "properties", "foo", "crs", "a b", "é", "x\"y", "Type", "coordinate", "geom", "zz"}
+var foreignKeys = []string{"id", "bbox", "properties", "foo", "crs", "a b", "é", "x\"y", "Type", "coordinate", "geom", "zz",
+	"\x01tag", "unit\x1fsep", "del\x7f", "\v", "tab\there", "\U000e0001x", "back\\slash", "nul\x00"}
 
 func randValue(r *rand.Rand, depth int) *V {
 	switch r.Intn(9) {
